@@ -143,6 +143,10 @@ def run(ctx, chk):
     from . import C12 as _C12
     _C12.observe(ctx, chk, "C05.obs", ['final_strategies', 'reachability_strategies'])
     # (a) pipeline order and restriction argument
+    # the property speaks of every solve: nothing computed by one solve (a memo on the game object, on a class, in a module)
+    # may be handed to the next one - a second solve of the same object, or of another game, would report stale values
+    from . import C10 as _C10
+    _C10.r2_no_carried_state(ctx, chk, "C05.pre:C10.2")
     C02.r1_pipeline(ctx, chk, "C05.pre:C02.1")
     C02.r4_restriction_argument(ctx, chk, "C05.pre:C02.4")
     C03.r1(ctx, chk, "C05.pre:C03.1")      # the restriction must not skip elements of the list it rewrites
